@@ -1,7 +1,7 @@
 """C20 - include ordering is a strict weak order and the linter's own fixes are fixed points.
 
-Translator: the constants the comparator reads (priority tables, prefix lists, bonus, suffix) and the directive words of
-HeaderParser.Preproc are extracted with `ast` (no execution) into Generated/C20Tables.lean on every run.
+Translator: the constants of the comparator are obtained from the RUNNING code on every run (module-level tables by name, everything
+else by probing SortableInclude.__lt__ on crafted pairs; source shape is not read) into Generated/C20Tables.lean.
 
 Correspondence: Model/Lint/IncludeOrder.lean and Model/Lint/Indent.lean (through the driver) against the real
 checkProjectStructure.SortableInclude / Entry.check_includes and HeaderParser (parse, report_indents, fix_indents and the
@@ -10,6 +10,7 @@ locality / no-stray-file clauses on the implementation.
 """
 import ast
 import itertools
+import json
 import os
 import re
 import subprocess
@@ -28,7 +29,8 @@ RULE = (
 TRUSTED_BASE = [
 	'Lean 4.33 kernel; axioms of the property theorems: subset of {propext, Classical.choice, Quot.sound}',
 	'hand-written models SymbolVerif/Model/Lint/{IncludeOrder,Indent}.lean, tied to the code by this differential run only',
-	'translator in harness/c20.py (ast extraction of the comparator constants and the directive table)',
+	'translator in harness/c20.py: module-level priority tables by name from the running module (translate/pyruntime.py), prefixes, C-header suffix, '
+	'second-level part, tests part, default priority, tests bonus and directive words by probing SortableInclude.__lt__ / HeaderParser.Preproc',
 	'stand-ins /verif/shims/{ply,colorama} (needed to import the linter at all; not exercised by the C20 code paths)',
 	'Python str comparison = code point order; list.sort/sorted uses only __lt__ and is deterministic',
 ]
@@ -45,90 +47,226 @@ HP = 'linters/cpp/HeaderParser.py'
 # region translator
 
 
-def _parse(relpath):
+PROBE_PROGRAM = r"""
+import json, sys
+import checkProjectStructure as cps
+import HeaderParser
+spec = json.load(sys.stdin)
+
+
+def make(include):
+	return cps.SortableInclude(HeaderParser.Include('#include ' + include, 1, include, ''), None)
+
+
+def lt(left, right):
+	try:
+		return bool(make(left) < make(right))
+	except Exception as ex:  # pylint: disable=broad-except
+		return type(ex).__name__
+
+
+def directive(word):
+	try:
+		HeaderParser.Preproc('#' + word, 1, word)
+		return True
+	except Exception:  # pylint: disable=broad-except
+		return False
+
+
+includes = spec['includes']
+print(json.dumps({
+	'matrix': [[lt(left, right) for right in includes] for left in includes],
+	'pairs': [lt(left, right) for left, right in spec['pairs']],
+	'directives': [word for word in spec['words'] if directive(word)]}))
+"""
+
+
+def _probe(spec):
+	"""Runs PROBE_PROGRAM against the working tree in a fresh interpreter: SortableInclude.__lt__ on every ordered pair of
+	spec['includes'] (True / False / name of the exception), and which of spec['words'] HeaderParser.Preproc accepts."""
+	paths = [os.path.join(REPO, 'linters/cpp'), os.path.join(os.path.dirname(LEAN), 'shims')]
+	env = dict(os.environ, PYTHONPATH=os.pathsep.join(paths), PYTHONDONTWRITEBYTECODE='1')
+	proc = subprocess.run([sys.executable, '-c', PROBE_PROGRAM], input=json.dumps(spec), env=env, capture_output=True, text=True, timeout=300, check=False)
+	if 0 != proc.returncode:
+		raise ValueError(f'probe of checkProjectStructure failed: {proc.stderr.strip()[-300:]}')
+	return json.loads(proc.stdout.strip().split('\n')[-1])
+
+
+def _constants(relpath):
+	"""Every string and integer constant that occurs anywhere in a source file (candidates for the probes; no shape is read)."""
 	with open(os.path.join(REPO, relpath), 'rt', encoding='utf8') as infile:
-		return ast.parse(infile.read(), relpath)
-
-
-def _function(tree, name, owner=None):
+		tree = ast.parse(infile.read(), relpath)
+	strings, numbers = [], []
 	for node in ast.walk(tree):
-		if owner is not None:
-			if isinstance(node, ast.ClassDef) and node.name == owner:
-				for item in node.body:
-					if isinstance(item, ast.FunctionDef) and item.name == name:
-						return item
-		elif isinstance(node, ast.FunctionDef) and node.name == name:
-			return node
-	raise ValueError(f'function {name} not found')
+		if isinstance(node, ast.Constant):
+			if isinstance(node.value, str) and node.value not in strings:
+				strings.append(node.value)
+			elif isinstance(node.value, int) and not isinstance(node.value, bool) and node.value not in numbers:
+				numbers.append(node.value)
+	return strings, numbers
 
 
-def _method_string_args(function, method):
-	"""Constant string arguments of `<expr>.<method>(<const>)` calls inside a function, in source order."""
-	found = []
-	for node in ast.walk(function):
-		if isinstance(node, ast.Call) and isinstance(node.func, ast.Attribute) and node.func.attr == method:
-			for arg in node.args:
-				if isinstance(arg, ast.Constant) and isinstance(arg.value, str):
-					found.append((node.lineno, node.col_offset, arg.value))
-	return [value for _, _, value in sorted(found)]
+def model_lt(tables, left, right):
+	"""The comparison the Lean model computes from `tables` (Model/Lint/IncludeOrder.lean `lt`), used to read d, t off the answers."""
+	def mark(prefixes, include):
+		return any(include.startswith(prefix) for prefix in prefixes)
+
+	def value(parts):
+		first = parts[0]
+		result = dict(tables['prio1']).get(first, tables['defaultPrio'])
+		if first == tables['secondLevelOf'] and len(parts) > 1:
+			result += dict(tables['prio2']).get(parts[1], 0)
+		if tables['testsPart'] in parts:
+			result += tables['testsBonus']
+		return result
+
+	def depth(count):
+		return 0 if 1 == count else 2 if 2 == count else 1
+
+	if left[:1] != right[:1]:
+		return left[:1] < right[:1]
+	keys = []
+	for include in (left, right):
+		parts = include.split('/')
+		quoted = include.startswith('"')
+		keys.append((
+			include.startswith('<') and include.endswith(tables['cSuffix']) and not mark(tables['cppPrefixes'], include),
+			not mark(tables['externalPrefixes'], include), not mark(tables['cppPrefixes'], include),
+			value(parts) if quoted else 0, depth(len(parts)) if quoted else 0, parts))
+	return keys[0] < keys[1]
 
 
-def _string_list_assigned(function, name):
-	for node in ast.walk(function):
-		if isinstance(node, ast.Assign) and isinstance(node.targets[0], ast.Name) and node.targets[0].id == name:
-			return [ast.literal_eval(item) for item in node.value.elts]
-	raise ValueError(f'{name} not found')
-
-
-def _module_dict(tree, name):
-	for node in tree.body:
-		if isinstance(node, ast.Assign) and isinstance(node.targets[0], ast.Name) and node.targets[0].id == name:
-			return ast.literal_eval(node.value)
-	raise ValueError(f'{name} not found')
+_TABLES_CACHE = {}
 
 
 def extract_tables():
-	"""The constants of the comparator, read from the working tree's source text."""
-	tree = _parse(CPS)
-	tables = {
-		'externalPrefixes': _method_string_args(_function(tree, 'is_external_include'), 'startswith'),
-		'cppPrefixes': _string_list_assigned(_function(tree, 'is_cpp_include'), 'cpp_includes'),
-		'prio1': list(_module_dict(tree, 'INCLUDE_PRIORITIES_1LVL').items()),
-		'prio2': list(_module_dict(tree, 'INCLUDE_PRIORITIES_2LVL').items()),
-	}
-	local = _function(tree, 'check_local_include')
-	defaults, bonuses, second, tests = [], [], [], []
-	for node in ast.walk(local):
-		if isinstance(node, ast.Assign) and isinstance(node.value, ast.IfExp) and isinstance(node.value.orelse, ast.Constant):
-			defaults.append(node.value.orelse.value)
-		if isinstance(node, ast.AugAssign) and isinstance(node.op, ast.Add) and isinstance(node.value, ast.Constant):
-			bonuses.append(node.value.value)
-		if isinstance(node, ast.Compare) and isinstance(node.ops[0], ast.Eq) and isinstance(node.comparators[0], ast.Constant):
-			second.append(node.comparators[0].value)
-		if isinstance(node, ast.Compare) and isinstance(node.ops[0], ast.In) and isinstance(node.left, ast.Constant):
-			tests.append(node.left.value)
-	problems = []
-	for label, values in (('default priority', defaults), ('tests bonus', bonuses), ('second-level part', second), ('tests part', tests)):
-		if not values:
-			raise ValueError(f'check_local_include: no {label} found')
-		if 1 != len(set(values)):
-			problems.append(f'check_local_include treats its two arguments differently ({label}: {sorted(set(map(str, values)))})')
-	tables['defaultPrio'] = defaults[0]
-	tables['testsBonus'] = bonuses[0]
-	tables['secondLevelOf'] = second[0]
-	tables['testsPart'] = tests[0]
-	suffixes = _method_string_args(_function(tree, '__lt__', 'SortableInclude'), 'endswith')
-	if 1 != len(set(suffixes)):
-		problems.append(f'SortableInclude.__lt__ uses different C-header suffixes for its two arguments: {suffixes}')
-	tables['cSuffix'] = suffixes[0]
+	"""The constants of the comparator as the RUNNING code has them: module-level tables by name (translate/pyruntime.py), everything
+	that is not a name by probing SortableInclude.__lt__ on crafted pairs. Returns (tables, problems); never raises."""
+	if REPO not in _TABLES_CACHE:
+		try:
+			_TABLES_CACHE[REPO] = _extract_tables()
+		except Exception as ex:  # pylint: disable=broad-except
+			fallback = {
+				'externalPrefixes': [], 'cppPrefixes': [], 'prio1': [], 'prio2': [], 'defaultPrio': 0, 'secondLevelOf': '', 'testsPart': '',
+				'testsBonus': 0, 'cSuffix': '', 'ppDirectives': []}
+			_TABLES_CACHE[REPO] = (fallback, [f'the comparator tables could not be obtained from the running code: {type(ex).__name__}: {ex}'])
+	return _TABLES_CACHE[REPO]
 
-	directives = None
-	for node in ast.walk(_function(_parse(HP), '__init__', 'Preproc')):
-		if isinstance(node, ast.Assign) and isinstance(node.targets[0], ast.Name) and 'match_to_type' == node.targets[0].id:
-			directives = [key.value for key in node.value.keys]
-	if directives is None:
-		raise ValueError('Preproc.match_to_type not found')
-	tables['ppDirectives'] = directives
+
+def _extract_tables():
+	# pylint: disable=too-many-locals,too-many-branches,too-many-statements
+	from translate import pyruntime  # pylint: disable=import-outside-toplevel
+	problems = []
+	names = pyruntime.values(REPO, 'checkProjectStructure', ['list(INCLUDE_PRIORITIES_1LVL.items())', 'list(INCLUDE_PRIORITIES_2LVL.items())'])
+	prio1 = [(key, value) for key, value in names['list(INCLUDE_PRIORITIES_1LVL.items())']]
+	prio2 = [(key, value) for key, value in names['list(INCLUDE_PRIORITIES_2LVL.items())']]
+	strings, numbers = _constants(CPS)
+	header_strings, _ = _constants(HP)
+
+	# --- probe set
+	system_prefixes = [text for text in strings if text.startswith('<') and len(text) > 1 and '>' not in text and ' ' not in text]
+	suffix_candidates = [text for text in strings if text.endswith('>') and not text.startswith('<') and 1 < len(text) <= 6]
+	firsts = [key[1:] for key, _ in prio1 if key.startswith('"')] + ['zzother', 'Aother']
+	seconds = [key for key, _ in prio2] + ['zzsecond']
+	part_candidates = [text for text in strings if re.fullmatch(r'[A-Za-z_]\w*', text) and len(text) <= 12][:40]
+	includes = ['<!>', '<~~~>', '<q>', '<vector>']
+	pairs = []
+	for prefix in system_prefixes:
+		includes += [prefix + '/~>']
+		pairs += [(prefix + '/~>', '<!>'), (prefix + '~>', '<!>'), (prefix[:-1] + '/~>', '<!>')]
+		pairs += [(left, right) for suffix in suffix_candidates for left, right in (('<~~~>', prefix + '/q' + suffix), (prefix + '/q' + suffix, '<~~~>'))]
+	for suffix in suffix_candidates:
+		includes += ['<q' + suffix, '<zz/q' + suffix]
+		pairs += [(left, right) for name in ('<q' + suffix, '<q' + suffix[1:]) for left, right in (('<~~~>', name), (name, '<~~~>'))]
+	for first in firsts:
+		includes += [f'"{first}"', f'"{first}/f.h"', f'"{first}/m/f.h"', f'"{first}/m/n/f.h"', f'"{first}/tests/f.h"']
+		for second in seconds[:-1]:
+			pairs += [(f'"{first}/{second}/f.h"', f'"{first}/{reference}/f.h"')[::step] for reference in ('~~', '!') for step in (1, -1)]
+	includes += [f'"{first}/{second}/f.h"' for first in firsts for second in seconds[:-1] + ['tests']][:60]
+	includes += [f'"{first}/{second}/tests/f.h"' for first in firsts[-4:] + firsts[:2] for second in seconds[:-1]]
+	for part in part_candidates:
+		pairs += [(f'"zzother/{part}/f.h"', f'"zzother/{reference}/f.h"')[::step] for reference in ('~~', '!') for step in (1, -1)]
+	includes = list(dict.fromkeys(includes))
+	words = list(dict.fromkeys([text for text in header_strings if re.fullmatch(r'[a-z_]+', text)] + [
+		'define', 'undef', 'if', 'ifdef', 'ifndef', 'elif', 'else', 'endif', 'pragma', 'error', 'warning', 'line', 'include', 'extern', 'import']))
+	answer = _probe({'includes': includes, 'pairs': pairs, 'words': words})
+	position = {include: index for index, include in enumerate(includes)}
+	matrix = answer['matrix']
+	explicit = dict(zip(map(tuple, pairs), answer['pairs']))
+
+	def lt(left, right):
+		if (left, right) in explicit:
+			return explicit[(left, right)]
+		return matrix[position[left]][position[right]]
+
+	raised = sorted({cell for row in matrix for cell in row if not isinstance(cell, bool)} | {cell for cell in answer['pairs'] if not isinstance(cell, bool)})
+	if raised:
+		problems.append(f'SortableInclude.__lt__ raises {raised} on crafted includes')
+
+	# --- system headers: the C-header suffix, then the marked prefixes (external before boost-like; boost-like are never C headers)
+	def is_c(include):
+		return True is lt('<~~~>', include) and False is lt(include, '<~~~>')
+
+	c_suffixes = [suffix for suffix in suffix_candidates if is_c('<q' + suffix) and not is_c('<q' + suffix[1:])]
+	if 1 != len(c_suffixes):
+		problems.append(f'cannot tell the suffix of a C system header from the answers (candidates that behave like one: {c_suffixes})')
+	c_suffix = c_suffixes[0] if c_suffixes else ''
+	external, cpp = [], []
+	for prefix in system_prefixes:
+		if True is lt(prefix + '/~>', '<!>') and True is lt(prefix + '~>', '<!>') and True is not lt(prefix[:-1] + '/~>', '<!>'):
+			(external if c_suffix and is_c(prefix + '/q' + c_suffix) else cpp).append(prefix)
+
+	# --- local headers: which first part has a second level, which path part earns the bonus (the answer contradicts the path order)
+	def changes_priority(include, base):
+		found = False
+		for reference in ('~~', '!'):
+			other = base.format(reference)
+			found = found or lt(include, other) != (include.split('/') < other.split('/')) or lt(other, include) != (other.split('/') < include.split('/'))
+		return found
+
+	second_level = [
+		first for first in firsts
+		if any(changes_priority(f'"{first}/{second}/f.h"', '"' + first + '/{}/f.h"') for second in seconds[:-1])]
+	bonus_parts = [part for part in part_candidates if changes_priority(f'"zzother/{part}/f.h"', '"zzother/{}/f.h"')]
+	if 1 != len(second_level):
+		problems.append(f'first path parts with a second priority level: {second_level} (the model has exactly one)')
+	if 1 != len(bonus_parts):
+		problems.append(f'path parts that change the priority of a local include: {bonus_parts} (the model has exactly one)')
+	tables = {
+		'externalPrefixes': external, 'cppPrefixes': cpp, 'prio1': prio1, 'prio2': prio2, 'secondLevelOf': '"' + second_level[0] if second_level else '',
+		'testsPart': bonus_parts[0] if bonus_parts else '', 'cSuffix': c_suffix, 'ppDirectives': answer['directives']}
+
+	# --- the two numbers that are not names: read off the answers (any pair that reproduces every answer is the same comparator)
+	def mismatches(default, bonus, subset, limit=None):
+		tables['defaultPrio'], tables['testsBonus'] = default, bonus
+		count = 0
+		for left in subset:
+			for right in subset:
+				if model_lt(tables, left, right) != matrix[position[left]][position[right]]:
+					count += 1
+					if limit is not None and count >= limit:
+						return count
+		return count
+
+	def preference(number):
+		return (0 if number > 0 else 1, abs(number))
+
+	without_bonus = [include for include in includes if not bonus_parts or bonus_parts[0] not in include.split('/')]
+	candidates = sorted(set(numbers) | {0, 1}, key=preference)
+	defaults = [number for number in candidates if 0 == mismatches(number, 0, without_bonus, 1)]
+	default = defaults[0] if defaults else min(candidates, key=lambda number: mismatches(number, 0, without_bonus))
+	table_values = {value for _, value in prio1 + prio2}
+	# among the numbers that reproduce every answer (they are the same comparator) take one that is not a table entry, if there is one
+	candidates = sorted(candidates, key=lambda number: (number in table_values, preference(number)))
+	bonuses = [number for number in candidates if 0 == mismatches(default, number, includes, 1)]
+	bonus = bonuses[0] if bonuses else min(candidates, key=lambda number: mismatches(default, number, includes))
+	remaining = mismatches(default, bonus, includes)
+	if remaining:
+		example = next((left, right) for left in includes for right in includes if model_lt(tables, left, right) != lt(left, right))
+		problems.append(
+			f'no default priority / tests bonus reproduces the answers of SortableInclude.__lt__ ({remaining} of {len(includes) ** 2} crafted pairs '
+			f'differ, e.g. {example[0]!r} < {example[1]!r} is {lt(*example)}): the comparison is not the cascade of the model')
+	tables['defaultPrio'], tables['testsBonus'] = default, bonus
 	return tables, problems
 
 
